@@ -84,7 +84,38 @@ def shape_subplan_readd():
                 },
             },
             "./sub.py": [
-                ["step", "A", {"inp": ["inp.txt"], "out": ["a.txt"]}],
+                ["step", "A", {"out": ["a.txt"]}],
+                ["step", "C", {"out": ["c.txt"]}],
+            ],
+            "A": GENERIC_WORKER,
+            "B": GENERIC_WORKER,
+            "C": GENERIC_WORKER,
+        },
+    }
+
+
+def shape_subplan_noinp():
+    """Like subplan_readd, but the sub-plan step P has no input file of its own."""
+    return {
+        "name": "subplan_noinp",
+        "sources": {"plan.py": ["v1", "v2"], "inp.txt": ["a", "b"]},
+        "scripts": {
+            "./plan.py": {
+                "on": "plan.py",
+                "versions": {
+                    "v1": [
+                        ["static", ["inp.txt"]],
+                        ["step", "P", {"need": "PLAN"}],
+                        ["step", "B", {"inp": ["a.txt"], "out": ["b.txt"]}],
+                    ],
+                    "v2": [
+                        ["static", ["inp.txt"]],
+                        ["step", "B", {"inp": ["a.txt"], "out": ["b.txt"]}],
+                    ],
+                },
+            },
+            "P": [
+                ["step", "A", {"out": ["a.txt"]}],
                 ["step", "C", {"out": ["c.txt"]}],
             ],
             "A": GENERIC_WORKER,
@@ -232,6 +263,7 @@ SHAPES = {
     for f in (
         shape_chain,
         shape_subplan_readd,
+        shape_subplan_noinp,
         shape_hold,
         shape_amend,
         shape_optional,
